@@ -109,6 +109,39 @@ def check_case(ctx, case, workload="enum"):
                 contracts.drain()
                 if ok4 and not math.isclose(vb4, bf0, rel_tol=1e-9, abs_tol=1e-290):
                     ctx.violate("visible_bf:depends-on-an-earlier-flatten-with-a-stable-set", f"visible_bf {vb4} after flatten(stable_particles={S}), product of the whole tree {bf0}", wit)
+    if len(types) >= 3 and ctx.rng.random() < 0.25:
+        # after the first question a sub-decay is exchanged through the chain's public `decays` mapping (same keys, another final state that now
+        # contains one more decaying particle of the chain), or its final state is edited in place: the next answers describe the chain as it is now
+        from decaylanguage import DecayMode  # noqa: PLC0415
+
+        cands = []
+        for k in types:
+            if k == m:
+                continue
+            for y in types:
+                if y not in (k, m) and k not in chains.reachable(types, y) and y not in S:
+                    cands.append((k, y))
+        if cands:
+            k, y = ctx.rng.choice(cands)
+            how = ctx.rng.choice(["mode-exchanged", "final-state-edited-in-place"])
+            ctx.hit("sub-decay-changed-through-the-decays-mapping-after-the-first-question:" + how)
+            types2 = {a: [b[0], list(b[1])] for a, b in types.items()}
+            types2[k][1].append(y)
+            if how == "mode-exchanged":
+                types2[k][0] = round(types[k][0] * 0.5 + 0.01, 6)
+                dc.decays[k] = DecayMode(types2[k][0], list(types2[k][1]), model="VSS", note=k)
+            else:
+                dc.decays[k].daughters[y] += 1
+            w5 = {**wit, "then": [how, k, y]}
+            leaves5, bf5 = chains.ref_leaves(types2, m, set(S))
+            ok5, fl5 = ctx.guard("flatten:after-change", w5, (lambda: dc.flatten(stable_particles=sarg) if S or stype != "list" else dc.flatten()))
+            for v in contracts.drain():
+                ctx.violate(v["mechanism"], v["message"], w5)
+            if ok5:
+                t5 = fl5.decays[m]
+                if Counter({a: b for a, b in dict(t5.daughters).items() if b}) != leaves5 or not math.isclose(t5.bf, bf5, rel_tol=1e-9, abs_tol=1e-290):
+                    ctx.violate("flatten:stale-after-a-sub-decay-was-changed", f"after {how} of {k} (+{y}): flatten gave {dict(t5.daughters)} bf={t5.bf}, expected {dict(leaves5)} bf={bf5}", w5)
+            return
     # classes
     occ = chains.occurrences(types, m)
     if len(types) - 1 >= 4 and not S:
